@@ -33,7 +33,7 @@ type c13sess struct {
 func scenarioC13(r *Run) {
 	c := r.Ch
 	addr := fmt.Sprintf("%s:%d", ServerIP, 5353)
-	_, accepted, err := startDnsServer(r, addr)
+	lnr, accepted, err := startDnsServer(r, addr)
 	if err != nil {
 		r.Fail("world-setup", "dns server: %v", err)
 		return
@@ -54,12 +54,20 @@ func scenarioC13(r *Run) {
 		until       time.Time
 	}
 	outages := map[string]*outage{}
+	tableFull := func() bool { return len(lnr.SimLiveConns()) >= 1296 }
+	var versionQuery *mdns.Msg // a genuine version request, as seen on the wire
 	pol.DgramHook = func(seq int) bool {
 		d := r.Net.PeekDgram(seq)
 		if d == nil {
 			return false
 		}
 		from, to := d.From.String(), d.To.String()
+		if versionQuery == nil && to == addr {
+			m := new(mdns.Msg)
+			if m.Unpack(d.Data) == nil && len(m.Question) == 1 && len(m.Question[0].Name) > 0 && (m.Question[0].Name[0] == 'v' || m.Question[0].Name[0] == 'V') {
+				versionQuery = m
+			}
+		}
 		for ip, o := range outages {
 			if !(strings.HasPrefix(from, ip+":") || strings.HasPrefix(to, ip+":")) {
 				continue
@@ -87,12 +95,24 @@ func scenarioC13(r *Run) {
 		}
 		return false
 	}
-	drain := func() {
+	drainOnce := func() {
 		for {
 			select {
 			case cn := <-accepted:
 				pool = append(pool, cn)
 			default:
+				return
+			}
+		}
+	}
+	// the accept goroutine hands connections over through a bounded channel: keep taking until it has nothing left
+	drain := func() {
+		for {
+			n := len(pool)
+			drainOnce()
+			synctest.Wait()
+			drainOnce()
+			if len(pool) == n {
 				return
 			}
 		}
@@ -233,20 +253,29 @@ func scenarioC13(r *Run) {
 				}
 				r.Count("handshake_gave_up_under_outage")
 				p.s.state = "none"
-				uid := p.dc.SimUserId()
-				p.dc.Close()
-				r.RunFor(2 * time.Second)
-				// the server may have accepted the abandoned session: it is not part of the history
+				who := p.dc.LocalAddr().String()
+				go p.dc.Close() // (its farewell to the server needs the driver to deliver datagrams)
+				r.RunFor(20 * time.Second)
+				// the server may have accepted the abandoned session (recognised by the client's address):
+				// it is not part of the history
 				drain()
 				kept := pool[:0]
 				for _, cn := range pool {
-					if id, ok := sdns.SimServerUserId(cn); ok && id == uid {
+					if cn.RemoteAddr() != nil && cn.RemoteAddr().String() == who {
 						cn.Close()
 						continue
 					}
 					kept = append(kept, cn)
 				}
 				pool = kept
+				continue
+			}
+			if p.done && p.err != nil && tableFull() {
+				// every identifier is taken by a live session: refusing a new one is what the server must do
+				r.Count("refused_because_table_full")
+				p.s.state = "none"
+				go p.dc.Close()
+				r.RunFor(20 * time.Second)
 				continue
 			}
 			if !p.done || p.err != nil {
@@ -265,9 +294,9 @@ func scenarioC13(r *Run) {
 			if ua, ok := p.dc.LocalAddr().(*net.UDPAddr); ok {
 				s.port = ua.Port
 			}
-			for i, cn := range pool {
-				if id, ok := sdns.SimServerUserId(cn); ok && id == s.uid {
-					s.srv = cn
+			for i := len(pool) - 1; i >= 0; i-- { // the most recently accepted connection with that identifier
+				if id, ok := sdns.SimServerUserId(pool[i]); ok && id == s.uid {
+					s.srv = pool[i]
 					pool = append(pool[:i], pool[i+1:]...)
 					break
 				}
@@ -455,6 +484,39 @@ func scenarioC13(r *Run) {
 		return
 	}
 	ops = append(ops, "open0")
+	if versionQuery != nil && c.Chance(1, 6, "fill-session-table") {
+		// "all open/close/expire/reopen histories of identifier slots": every identifier of the server's
+		// table (1296) is taken by version requests from as many addresses; those sessions never speak
+		// again, expire after five minutes and are remembered as retired for thirty
+		for k := 0; k < 1300; k++ {
+			q := versionQuery.Copy()
+			q.Id = uint16(k + 1)
+			data, err := q.Pack()
+			if err != nil {
+				break
+			}
+			from := &net.UDPAddr{IP: net.IPv4(10, 7, byte(k/250), byte(1+k%250)), Port: 5000 + k%100}
+			r.Net.Inject("udp", from, &net.UDPAddr{IP: net.ParseIP(ServerIP), Port: 5353}, data)
+			if k%50 == 49 {
+				synctest.Wait()
+				drain()
+				for _, fd := range r.Net.Flight() {
+					if strings.HasPrefix(fd.To, "10.7.") {
+						r.Net.TakeDgram(fd.Seq)
+					}
+				}
+			}
+		}
+		synctest.Wait()
+		drain()
+		for _, fd := range r.Net.Flight() {
+			if strings.HasPrefix(fd.To, "10.7.") {
+				r.Net.TakeDgram(fd.Seq)
+			}
+		}
+		ops = append(ops, "fill-table")
+		r.Count("session_table_filled")
+	}
 	for step := 0; step < nops && !r.Failed(); step++ {
 		s := sess[c.Pick(k, "op-session")]
 		op := c.Pick(10, "op")
